@@ -50,7 +50,9 @@ PROPS: dict = {
     "C06": {"suites": [multiround.suite_c06], "rule": RULE_MR, "proof_modules": ["BBProps.C06", "BBProofs.Multiround", "BBProofs.Names"]},
     "C07": {"suites": [props_tree.c07, legacy.suite_legacy], "rule": RULE_TREE + "; S-LEGACY: bblean vs _legacy.bb_uint8 vs "
             "_legacy.bb_int64 on 2048-bit inputs (radius, diameter, tolerance-legacy), non-trivial = case with a multi-member cluster"},
-    "C08": {"suites": [props_tree.c08, gen.suite_gen({"subcluster"})], "rule": RULE_TREE + RULE_GEN},
+    "C08": {"suites": [props_tree.c08, gen.suite_gen({"subcluster", "node"})], "rule": RULE_TREE + RULE_GEN + "; node stream: real _BFNode objects with "
+            "real sub-clusters (handles = identities, buffer rows = centroid tokens, garbage in the unused rows): append_subcluster, "
+            "update_split_subclusters (also of an absent entry) and the packed_centroids view vs the generated functions"},
     "C09": {"suites": [props_tree.c09], "rule": RULE_TREE},
     "C10": {"suites": [prims.suite_merge, gen.suite_gen({"merges", "dispatch"})], "rule": RULE_MERGE + RULE_GEN,
             "proof_modules": ["BBProps.C10", "BBProofs.GenEq", "BBProofs.GenEq2", "BBProofs.GenEq3", "BBProofs.GenEq4", "BBProofs.GenEq5", "BBProofs.PyNum", "BBGen.Gen", "BBModel.PyNum"]},
